@@ -107,6 +107,8 @@ type Exec struct {
 	stepLimit   int64
 	cuts        map[string]*cutSpec
 	stubReal    map[*Term]*Term
+	initFrame   *frame
+	initSkipped int
 	stubOrder   []*Term
 }
 
@@ -423,7 +425,44 @@ func (x *Exec) runInit(p *ssa.Package) {
 			}
 		}
 	}()
-	x.call(initFn, nil, nil)
+	x.callInit(initFn)
+}
+
+func (x *Exec) callInit(fn *ssa.Function) {
+	fr := &frame{fn: fn, locals: make(map[ssa.Value]Value, 16), info: getFnInfo(fn)}
+	x.stack = append(x.stack, fr)
+	depth := len(x.stack)
+	saved := x.initFrame
+	x.initFrame = fr
+	defer func() {
+		x.initFrame = saved
+		x.stack = x.stack[:depth-1]
+	}()
+	x.run(fr, fn.Blocks[0], nil, nil, false)
+}
+
+// stepTolerant executes one instruction of a package initializer; an initializer expression the engine cannot
+// interpret (reflection, runtime hooks) leaves the zero value and is remembered, instead of aborting the rest.
+func (x *Exec) stepTolerant(fr *frame, in ssa.Instruction) {
+	depth := len(x.stack)
+	defer func() {
+		if r := recover(); r != nil {
+			switch r.(type) {
+			case *EngineErr, *GoPanic:
+				x.stack = x.stack[:depth]
+				if v, ok := in.(ssa.Value); ok {
+					func() {
+						defer func() { recover() }()
+						fr.locals[v] = x.Zero(v.Type())
+					}()
+				}
+				x.initSkipped++
+			default:
+				panic(r)
+			}
+		}
+	}()
+	x.step(fr, in)
 }
 
 // ---------------------------------------------------------------- calls
@@ -696,7 +735,11 @@ func (x *Exec) run(fr *frame, blk, prev, stop *ssa.BasicBlock, phisSet bool) run
 			case *ssa.RunDefers:
 				x.runDefers(fr)
 			default:
-				x.step(fr, in)
+				if x.initFrame == fr {
+					x.stepTolerant(fr, in)
+				} else {
+					x.step(fr, in)
+				}
 			}
 		}
 		if next == nil {
@@ -1130,12 +1173,15 @@ func (x *Exec) allocSize(v Value, what string) int {
 		}
 		return int(n.Int64())
 	}
-	// symbolic allocation size: allocation obligation – the size must be bounded by what the harness allows
+	// symbolic allocation size: negative sizes panic at run time; sizes beyond the allocation bound are reported
+	// as an allocation obligation (the size is attacker controlled and not bounded by the data available)
+	if !x.branch(x.ts.Cmp(OSle, x.ts.BV(0, t.W), t), "alloc-sign:"+what) {
+		x.goPanic("runtime error: makeslice: len out of range (negative symbolic size)")
+	}
 	if x.eng.AllocLimit > 0 {
 		lim := x.ts.BV(uint64(x.eng.AllocLimit), t.W)
-		c := x.ts.And(x.ts.Cmp(OSle, x.ts.BV(0, t.W), t), x.ts.Cmp(OSle, t, lim))
-		if !x.branch(c, "alloc:"+what) {
-			panic(&GoPanic{Msg: "VERIF-ALLOC: unbounded or negative allocation size in " + what + ": " + t.String(), Stack: x.stackTrace()})
+		if !x.branch(x.ts.Cmp(OSle, t, lim), "alloc:"+what) {
+			panic(&GoPanic{Msg: "VERIF-ALLOC: allocation size taken from untrusted input is not bounded (" + what + ")", Stack: x.stackTrace()})
 		}
 	}
 	return x.concretize(t, what)
@@ -1731,11 +1777,15 @@ func (x *Exec) lookup(fr *frame, in *ssa.Lookup) Value {
 	panic(x.errf("lookup on %T", x.get(fr, in.X)))
 }
 
-func (x *Exec) sliceBound(v ssa.Value, fr *frame, def int, what string) int {
+func (x *Exec) sliceBound(v ssa.Value, fr *frame, def int, what string, max int) int {
 	if v == nil {
 		return def
 	}
 	t := x.get(fr, v).(*Term)
+	if !t.IsConst() {
+		inb := x.ts.And(x.ts.Cmp(OSle, x.ts.BV(0, t.W), t), x.ts.Cmp(OSle, t, x.ts.BV(uint64(max), t.W)))
+		x.require(inb, "bounds", fmt.Sprintf("slice bounds out of range [symbolic %s] with capacity %d", what, max))
+	}
 	if t.IsConst() {
 		b := t.SignedBig()
 		if b.BitLen() > 40 {
@@ -1753,8 +1803,8 @@ func (x *Exec) sliceOp(fr *frame, in *ssa.Slice) Value {
 	base := x.get(fr, in.X)
 	switch b := base.(type) {
 	case string:
-		lo := x.sliceBound(in.Low, fr, 0, "slice low")
-		hi := x.sliceBound(in.High, fr, len(b), "slice high")
+		lo := x.sliceBound(in.Low, fr, 0, "slice low", len(b))
+		hi := x.sliceBound(in.High, fr, len(b), "slice high", len(b))
 		if lo < 0 || hi < lo || hi > len(b) {
 			x.goPanic(fmt.Sprintf("runtime error: slice bounds out of range [%d:%d] with string length %d", lo, hi, len(b)))
 		}
@@ -1764,9 +1814,9 @@ func (x *Exec) sliceOp(fr *frame, in *ssa.Slice) Value {
 		if esz == 0 {
 			esz = x.lay.Cells(in.X.Type().Underlying().(*types.Slice).Elem())
 		}
-		lo := x.sliceBound(in.Low, fr, 0, "slice low")
-		hi := x.sliceBound(in.High, fr, b.Len, "slice high")
-		mx := x.sliceBound(in.Max, fr, b.Cap, "slice max")
+		lo := x.sliceBound(in.Low, fr, 0, "slice low", b.Cap)
+		hi := x.sliceBound(in.High, fr, b.Len, "slice high", b.Cap)
+		mx := x.sliceBound(in.Max, fr, b.Cap, "slice max", b.Cap)
 		if hi < 0 || hi > b.Cap {
 			x.goPanic(fmt.Sprintf("runtime error: slice bounds out of range [:%d] with capacity %d", hi, b.Cap))
 		}
@@ -1787,9 +1837,9 @@ func (x *Exec) sliceOp(fr *frame, in *ssa.Slice) Value {
 		}
 		n := int(at.Len())
 		esz := x.lay.Cells(at.Elem())
-		lo := x.sliceBound(in.Low, fr, 0, "slice low")
-		hi := x.sliceBound(in.High, fr, n, "slice high")
-		mx := x.sliceBound(in.Max, fr, n, "slice max")
+		lo := x.sliceBound(in.Low, fr, 0, "slice low", n)
+		hi := x.sliceBound(in.High, fr, n, "slice high", n)
+		mx := x.sliceBound(in.Max, fr, n, "slice max", n)
 		if lo < 0 || hi < lo || hi > n || mx < hi || mx > n {
 			x.goPanic(fmt.Sprintf("runtime error: slice bounds out of range [%d:%d:%d] with array length %d", lo, hi, mx, n))
 		}
